@@ -409,6 +409,19 @@ pub fn gen_chaos(seed: u64, idx: u64, s: &dyn SuiteOps, nops: usize) -> World {
             honest
         }
     }
+    // a message assembled from the session's own one and another observed one, cut at a field
+    // boundary (or, for the single-field finalization, the two concatenated)
+    let lens = s.lens();
+    let mix = |g: &mut Gen, kind: Kind, own: u32, pool: &[u32]| -> Ref {
+        let other = *g.pick(pool);
+        let f = crate::layout::fields(kind, &lens);
+        let (a, bb) = if g.chance(1, 2) { (own, other) } else { (other, own) };
+        if f.len() < 2 {
+            return Ref::Splice { kind, parts: vec![Part { id: a, from: 0, to: usize::MAX }, Part { id: bb, from: 0, to: usize::MAX }] };
+        }
+        let cut = f[1 + g.below(f.len() - 1)].off;
+        Ref::Splice { kind, parts: vec![Part { id: a, from: 0, to: cut }, Part { id: bb, from: cut, to: usize::MAX }] }
+    };
     for _ in 0..nops {
         // start something new, or advance a session
         if sess.is_empty() || g.chance(1, 4) {
@@ -495,7 +508,8 @@ pub fn gen_chaos(seed: u64, idx: u64, s: &dyn SuiteOps, nops: usize) -> World {
                 let su = setup_of(&mut g, dev(2));
                 let rq = choose(&mut g, dev(0), se.req, &p_creq);
                 let ids = if dev(3) { g.pick(&idsets).clone() } else { idsets[u.ids].clone() };
-                b.push(Op::LoginRespond { st, msg, tape, setup: Ref::via(su, pick_via(&mut g)), record: rec.map(|r| Ref::via(r, pick_via(&mut g))), req: Ref::via(rq, pick_via(&mut g)), cred: cred.into(), ctx: ctxs[se.ctx].clone().map(Into::into), ids });
+                let req = if dev(0) && g.chance(1, 3) { mix(&mut g, Kind::CredReq, se.req, &p_creq) } else { Ref::via(rq, pick_via(&mut g)) };
+                b.push(Op::LoginRespond { st, msg, tape, setup: Ref::via(su, pick_via(&mut g)), record: rec.map(|r| Ref::via(r, pick_via(&mut g))), req, cred: cred.into(), ctx: ctxs[se.ctx].clone().map(Into::into), ids });
                 se.sst = st;
                 se.resp = msg;
                 p_sst.push(st);
@@ -511,7 +525,8 @@ pub fn gen_chaos(seed: u64, idx: u64, s: &dyn SuiteOps, nops: usize) -> World {
                 let ctx = if dev(1) { g.pick(&ctxs).clone() } else { ctxs[se.ctx].clone() };
                 let ids = if dev(2) { g.pick(&idsets).clone() } else { idsets[u.ids].clone() };
                 let ksf = if deviate && slot == 5 { g.pick(&ksfs).clone() } else { ksfs[u.ksf].clone() };
-                b.push(Op::LoginFinish { out, st: Ref::via(st, pick_via(&mut g)), pw: pw.into(), resp: Ref::via(rs, pick_via(&mut g)), ctx: ctx.map(Into::into), ids, ksf });
+                let resp = if dev(0) && g.chance(1, 3) { mix(&mut g, Kind::CredResp, se.resp, &p_cresp) } else { Ref::via(rs, pick_via(&mut g)) };
+                b.push(Op::LoginFinish { out, st: Ref::via(st, pick_via(&mut g)), pw: pw.into(), resp, ctx: ctx.map(Into::into), ids, ksf });
                 se.fin = out;
                 p_fin.push(out);
                 all.push(out);
@@ -520,7 +535,8 @@ pub fn gen_chaos(seed: u64, idx: u64, s: &dyn SuiteOps, nops: usize) -> World {
             13 => {
                 let f = choose(&mut g, dev(0), se.fin, &p_fin);
                 let st = choose(&mut g, dev(4), se.sst, &p_sst);
-                b.push(Op::ServerFinish { st: Ref::via(st, pick_via(&mut g)), fin: Ref::via(f, pick_via(&mut g)) });
+                let fin = if dev(0) && g.chance(1, 3) { mix(&mut g, Kind::CredFin, se.fin, &p_fin) } else { Ref::via(f, pick_via(&mut g)) };
+                b.push(Op::ServerFinish { st: Ref::via(st, pick_via(&mut g)), fin });
                 // duplicate delivery of the same finalization, sometimes
                 if g.chance(1, 8) {
                     b.push(Op::ServerFinish { st: Ref::via(st, pick_via(&mut g)), fin: Ref::via(f, pick_via(&mut g)) });
